@@ -567,6 +567,35 @@ class Interp:
             raise ModelRaise(name, "explicit raise")
         elif isinstance(s, ast.Pass):
             pass
+        elif isinstance(s, ast.Try):
+            try:
+                try:
+                    self.block(s.body, *env)
+                except ModelRaise as e:
+                    for h in s.handlers:
+                        if h.type is None:
+                            names = None
+                        elif isinstance(h.type, ast.Tuple):
+                            names = [txt(t).split(".")[-1]
+                                     for t in h.type.elts]
+                        else:
+                            names = [txt(h.type).split(".")[-1]]
+                        if names is None or e.name in names or set(
+                                names) & {"Exception", "BaseException"}:
+                            if h.name:
+                                self.assign(
+                                    ast.Name(id=h.name, ctx=ast.Store()),
+                                    Namespace("exc", args=(e.detail,)),
+                                    *env)
+                            self.block(h.body, *env)
+                            break
+                    else:
+                        raise
+                else:
+                    self.block(s.orelse, *env)
+            finally:
+                if s.finalbody:
+                    self.block(s.finalbody, *env)
         elif isinstance(s, ast.With):
             # model objects only: `__enter__` (if modelled) gives the bound
             # value, the exit handler is not modelled (no exceptions are
